@@ -192,6 +192,11 @@ func TestVerifC14Priority(t *testing.T) {
 	}
 
 	if r.ReplayPath != "" {
+		var nc c14pnCase
+		if err := r.ReplayCase(&nc); err == nil && nc.Part != "" {
+			c14pNilCombos(t, r, key0, key1, id0, id1)
+			return
+		}
 		var c c14pCase
 		if err := r.ReplayCase(&c); err == nil {
 			p, st := run(c)
@@ -230,6 +235,9 @@ func TestVerifC14Priority(t *testing.T) {
 			}
 		}
 	}
+
+	// every optional / nested field absent, up to two at a time (zz_verif_c14nil_test.go)
+	c14pNilCombos(t, r, key0, key1, id0, id1)
 }
 
 // c14pGuard returns "" or "op=<top charon frame> err=<class>".
